@@ -20,6 +20,17 @@ PRELUDE = '''
   // HashMap/HashSet semantics do not depend on the hasher keys: fixed keys are behaviour-preserving for every map
   // operation and keep the getrandom loop out of the query
   pub fn vp_random_state() -> ::std::hash::RandomState { unsafe { ::std::mem::transmute::<[u64; 2], ::std::hash::RandomState>([0x0123_4567_89ab_cdefu64, 0x0fed_cba9_8765_4321u64]) } }
+  // TypeSection::get_or_intern memoises kind -> id in a HashMap<ValueKind, TypeId>; hashing the niche-encoded recursive
+  // ValueKind cannot be executed symbolically (no verdict in 15 min).  Same function without the memo table: encode, reuse the
+  // entry with identical (tag, payload) if there is one, else append.
+  pub fn vp_get_or_intern(ts: &mut TypeSection, vk: &ValueKind) -> TypeId {
+    let (tag, bytes) = encode_value_kind(ts, vk);
+    let mut i = 0;
+    while i < ts.entries.len() { if ts.entries[i].tag == tag && ts.entries[i].bytes == bytes { return i as u32; } i += 1; }
+    let id = ts.entries.len() as u32;
+    ts.entries.push(TypeEntry { tag, bytes });
+    id
+  }
   pub fn vp_crc_sum(b: &[u8]) -> u32 { let mut s: u32 = 0x1234_5678; let mut i = 0; while i < b.len() { s = s.wrapping_mul(31).wrapping_add(b[i] as u32); i += 1; } s }
   pub fn vp_crc_real(b: &[u8]) -> u32 { let mut h = crc32fast::Hasher::internal_new_baseline(0, 0); h.update(b); h.finalize() }
   pub fn vp_header(const_count: u32, tbl_off: u64, tbl_len: u64, blob_off: u64, blob_len: u64, instr_off: u64, instr_len: u64,
@@ -32,6 +43,7 @@ PRELUDE = '''
 
 STUB_RS = "#[kani::stub(::std::hash::RandomState::new, vp_random_state)]"
 STUB_VKH = "#[kani::stub(<crate::ValueKind as ::std::hash::Hash>::hash, vp_vk_hash)]"
+STUB_INTERN = "#[kani::stub(crate::TypeSection::get_or_intern, vp_get_or_intern)]"
 STUB_IOERR = "#[kani::stub(<crate::MechError as ::std::convert::From<::std::io::Error>>::from, vp_from_io)]"
 STUB_NONDET = "#[kani::stub(crc32fast::hash, vp_crc_nondet)]"
 STUB_SUM = "#[kani::stub(crc32fast::hash, vp_crc_sum)]"
@@ -43,6 +55,7 @@ FNS_LOADER = ["load_program_from_bytes", "verify_crc_trailer_seek", "load_progra
 def mk(name, body, domain, key, desc, fns, bounds, unwind, tier, attrs, nonterm=False):
     h = H(name, "    " + "\n    ".join(body), WHERE, domain=domain, key=key, desc=desc, functions=fns, bounds=bounds, unwind=unwind, tier=tier)
     h.attrs = attrs + [STUB_IOERR, STUB_RS]
+    h.rec_limit = 1      # no nested ValueKind / Value occurs in these harnesses
     h.stub_loc = True
     if nonterm:
         h.nonterm_is_violation = True
@@ -72,38 +85,34 @@ def gen_short(tier):
               "0..3 symbolic bytes", 6, tier, [STUB_NONDET])
 
 
-def gen_loader_nopanic(variant, tier):
-    """symbolic header over a small symbolic body: no panic after the gate.  variant selects which sections are live."""
-    body_n = 16
-    total = 137 + body_n + 4
-    b = []
-    if variant == "offsets":
-        # every offset symbolic, every length zero except the ones read through the offset itself
-        b.append("let h = vp_header(kani::any(), kani::any(), 0, kani::any(), 0, kani::any(), 0, kani::any(), kani::any(), kani::any(), 0, kani::any(), 0);")
-        what = "all section offsets symbolic (u64), section lengths 0: feature/type sections are located through the offsets alone"
-    elif variant == "consts":
-        b.append("let tl: u64 = kani::any(); let bl: u64 = kani::any();")
-        b.append("let h = vp_header(kani::any(), 137, tl, 137, bl, 0, 0, 0, 0, 0, 0, 0, 0);")
-        what = "constant table / blob lengths and constant count symbolic"
-    elif variant == "instrs":
-        b.append("let il: u64 = kani::any(); kani::assume(il <= %d);" % body_n)
-        b.append("let h = vp_header(0, 0, 0, 0, 0, 137, il, 0, 0, 0, 0, 0, 0);")
-        what = "instruction stream of symbolic length <= %d and symbolic content" % body_n
-    else:
-        raise ValueError(variant)
-    b.append("let body: [u8; %d] = kani::any();" % (body_n + 4))
-    b.append("let mut buf = Cursor::new(Vec::<u8>::new());")
-    b.append("h.write_to(&mut buf).unwrap();")
-    b.append("let mut bytes = buf.into_inner(); bytes.extend_from_slice(&body);")
-    b.append("let c: u32 = kani::any(); unsafe { VP_CRC = c; }")
-    b.append("kani::cover!(true, \"VP:reached-call\");")
-    b.append("let r = ParsedProgram::from_bytes(&bytes[..]);")
-    b.append("kani::cover!(r.is_ok(), \"VP:reached-ok\"); kani::cover!(r.is_err(), \"VP:reached-err\");")
-    b.append("forget(r); forget(bytes);")
+# byte offsets of the header fields (ByteCodeHeader::write_to order)
+HDR = {"magic": (0, 4), "version": (4, 1), "mech_ver": (5, 2), "flags": (7, 2), "reg_count": (9, 4), "instr_count": (13, 4), "feature_count": (17, 4),
+       "feature_off": (21, 8), "types_count": (29, 4), "types_off": (33, 8), "const_count": (41, 4), "const_tbl_off": (45, 8), "const_tbl_len": (53, 8),
+       "const_blob_off": (61, 8), "const_blob_len": (69, 8), "symbols_len": (77, 8), "symbols_off": (85, 8), "instr_off": (93, 8), "instr_len": (101, 8),
+       "dict_off": (109, 8), "dict_len": (117, 8), "reserved": (125, 4)}
+HDR_SIZE = 129
+
+
+def gen_loader_nopanic(variant, live, tier, body_n=12):
+    """the whole file is a stack array; every byte is symbolic except the magic and the header fields named in `zero`
+    (so that symbolic execution keeps the dead sections dead).  `live` = header fields left symbolic."""
+    total = HDR_SIZE + body_n + 4
+    b = ["let mut file: [u8; %d] = kani::any();" % total,
+         "file[0] = b'M'; file[1] = b'E'; file[2] = b'C'; file[3] = b'H';"]
+    zero = [f for f in HDR if f not in live and f not in ("magic", "version", "mech_ver", "flags", "reg_count", "instr_count", "feature_count",
+                                                           "types_count", "reserved")]
+    for f in zero:
+        off, n = HDR[f]
+        b.append(" ".join("file[%d] = 0;" % (off + k) for k in range(n)))
+    b += ["let c: u32 = kani::any(); unsafe { VP_CRC = c; }",
+          "kani::cover!(true, \"VP:reached-call\");",
+          "let r = ParsedProgram::from_bytes(&file[..]);",
+          "kani::cover!(r.is_ok(), \"VP:reached-ok\"); kani::cover!(r.is_err(), \"VP:reached-err\");",
+          "forget(r);"]
     return mk("c07_loader_nopanic_%s" % variant, b, "accept", "loader/%s" % variant,
-              "loader on a %d-byte file with a symbolic header: %s; any panic, overflow or out-of-bounds access is a violation" % (total, what),
-              FNS_LOADER, "file = 137-byte header + %d symbolic bytes + trailer; symbol and dictionary sections empty" % body_n,
-              body_n + 8, tier, [STUB_NONDET])
+              "loader on a %d-byte file whose header fields {%s} and all %d body bytes are symbolic (other section offsets/lengths zero): any panic, "
+              "arithmetic overflow or out-of-bounds access is a violation" % (total, ", ".join(live), body_n),
+              FNS_LOADER, "file = %d-byte header + %d symbolic bytes + trailer" % (HDR_SIZE, body_n), body_n + 8, tier, [STUB_NONDET])
 
 
 def gen_decode_instr(n, tier):
@@ -124,27 +133,48 @@ def gen_decode_instr(n, tier):
               ["decode_instructions", "DecodedInstr::write_to"], "instruction stream of exactly %d symbolic bytes" % n, n + 3, tier, [])
 
 
-def gen_vararg(maxn, tier):
-    b = ["let n: usize = kani::any(); kani::assume(n <= %d);" % maxn, "let arr: [u32; %d] = kani::any();" % maxn,
-         "let fxn_id: u64 = kani::any(); let dst: u32 = kani::any();",
-         "let ins = EncodedInstr::VarArg { fxn_id, dst, args: arr[..n].to_vec() };",
-         "let mut buf = Cursor::new(Vec::<u8>::new()); ins.write_to(&mut buf).unwrap(); let bytes = buf.into_inner();",
-         "assert!(bytes.len() as u64 == ins.byte_len(), \"VP:byte-len-differs-from-written-length\");",
-         "kani::cover!(n == %d, \"VP:reached-call\");" % maxn,
-         "match decode_instructions(Cursor::new(&bytes[..])) {",
-         "  Err(e) => { forget(e); assert!(false, \"VP:emitted-instruction-rejected\"); }",
-         "  Ok(v) => {",
-         "    assert!(v.len() == 1, \"VP:instruction-count-differs\");",
-         "    match &v[0] { DecodedInstr::VarArg { fxn_id: f2, dst: d2, args } => {",
-         "        assert!(*f2 == fxn_id && *d2 == dst && args.len() == n, \"VP:instruction-differs\");",
-         "        let mut k = 0; let mut same = true; while k < n { if k < args.len() && args[k] != arr[k] { same = false; } k += 1; }",
-         "        assert!(same, \"VP:instruction-operands-differ\"); },",
-         "      _ => { assert!(false, \"VP:instruction-kind-differs\"); } }",
-         "    kani::cover!(true, \"VP:reached\"); forget(v);", "  }", "}", "forget(bytes); forget(ins);"]
-    return mk("c07_vararg_roundtrip_%d" % maxn, b, "accept", "instr-roundtrip/VarArg/%d" % maxn,
-              "a VarArg instruction with n <= %d symbolic operands: write_to then decode_instructions gives the same instruction (horzcat/vertcat of many "
-              "elements compile to this)" % maxn, ["EncodedInstr::write_to/byte_len", "decode_instructions"],
-              "operand count 0..%d, all operand values" % maxn, maxn + 3, tier, [])
+def vararg_spec(n):
+    """reference encoding of a VarArg instruction, built on the stack (so that the operand count stays a constant for
+    symbolic execution): opcode 0x60, fxn_id u64 LE, dst u32 LE, count u32 LE, operands u32 LE"""
+    L = 17 + 4 * n
+    b = ["let ops: [u32; %d] = kani::any(); let fxn_id: u64 = kani::any(); let dst: u32 = kani::any();" % n,
+         "let mut spec = [0u8; %d]; spec[0] = 0x60;" % L,
+         "{ let f = fxn_id.to_le_bytes(); %s }" % " ".join("spec[%d] = f[%d];" % (1 + k, k) for k in range(8)),
+         "{ let d = dst.to_le_bytes(); %s }" % " ".join("spec[%d] = d[%d];" % (9 + k, k) for k in range(4)),
+         "{ let c = (%du32).to_le_bytes(); %s }" % (n, " ".join("spec[%d] = c[%d];" % (13 + k, k) for k in range(4)))]
+    for k in range(n):
+        b.append("{ let o = ops[%d].to_le_bytes(); %s }" % (k, " ".join("spec[%d] = o[%d];" % (17 + 4 * k + q, q) for q in range(4))))
+    return b, L
+
+
+def gen_vararg_reader(n, tier):
+    b, L = vararg_spec(n)
+    b += ["kani::cover!(true, \"VP:reached-call\");",
+          "match decode_instructions(Cursor::new(&spec[..])) {",
+          "  Err(e) => { forget(e); assert!(false, \"VP:emitted-instruction-rejected\"); }",
+          "  Ok(v) => {",
+          "    assert!(v.len() == 1, \"VP:instruction-count-differs\");",
+          "    match &v[0] { DecodedInstr::VarArg { fxn_id: f2, dst: d2, args } => {",
+          "        assert!(*f2 == fxn_id && *d2 == dst && args.len() == %d, \"VP:instruction-differs\");" % n,
+          "        if args.len() == %d { assert!(%s, \"VP:instruction-operands-differ\"); } }," % (n, " && ".join("args[%d] == ops[%d]" % (k, k) for k in range(n))),
+          "      _ => { assert!(false, \"VP:instruction-kind-differs\"); } }",
+          "    kani::cover!(true, \"VP:reached\"); forget(v);", "  }", "}"]
+    return mk("c07_vararg_decode_%d" % n, b, "accept", "instr-decode/VarArg/%d" % n,
+              "the reference encoding of a VarArg instruction with %d symbolic operands (what horzcat/vertcat of %d elements compile to) decodes to "
+              "exactly that instruction" % (n, n), ["decode_instructions"], "%d operands, all operand values, function id and destination symbolic" % n,
+              n + 3, tier, [])
+
+
+def gen_vararg_writer(n, tier):
+    b, L = vararg_spec(n)
+    b += ["let ins = EncodedInstr::VarArg { fxn_id, dst, args: ops.to_vec() };",
+          "let mut buf = Cursor::new(Vec::<u8>::new()); ins.write_to(&mut buf).unwrap(); let bytes = buf.into_inner();",
+          "assert!(bytes.len() == %d && ins.byte_len() == %d, \"VP:byte-len-differs-from-written-length\");" % (L, L),
+          "if bytes.len() == %d { assert!(%s, \"VP:written-bytes-differ-from-format\"); }" % (L, " && ".join("bytes[%d] == spec[%d]" % (k, k) for k in range(L))),
+          "kani::cover!(true, \"VP:reached\");", "forget(bytes); forget(ins);"]
+    return mk("c07_vararg_encode_%d" % n, b, "accept", "instr-encode/VarArg/%d" % n,
+              "EncodedInstr::VarArg with %d symbolic operands is written as opcode, function id, destination, count, operands (little endian); byte_len "
+              "agrees" % n, ["EncodedInstr::write_to/byte_len"], "%d operands" % n, n + 3, tier, [])
 
 
 def gen_instr_kind(kind, ctor, pat, eqs, nbytes, tier):
@@ -228,7 +258,7 @@ def gen_decode_const_roundtrip(t, tier):
     return mk("c07_const_roundtrip_%s" % t.lower(), b, "accept", "const-roundtrip/%s" % var,
               "a u8 constant followed by a symbolic %s constant: compile_const (alignment padding) then decode_const_entries returns both values exactly" % t,
               ["CompileConst::compile_const for %s" % t, "CompileCtx::compile_const", "align_up", "TypeSection::get_or_intern", "ParsedProgram::decode_const_entries"],
-              "2 constants; all values of the kind", 20, tier, [])
+              "2 constants; all values of the kind", 20, tier, [STUB_INTERN])
 
 
 def gen_roundtrip(tier):
@@ -257,7 +287,7 @@ def gen_roundtrip(tier):
               "same header counts, instructions, constants; to_bytes() reproduces the emitted bytes",
               ["CompileCtx::compile", "ByteCodeHeader::write_to/read_from", "TypeSection::write_to", "ConstEntry::write_to", "EncodedInstr::write_to",
                "load_program_from_bytes", "ParsedProgram::to_bytes"],
-              "2 constants, 3 instructions, no symbols; checksum = deterministic byte sum on both sides", 260, tier, [STUB_SUM])
+              "2 constants, 3 instructions, no symbols; checksum = deterministic byte sum on both sides", 260, tier, [STUB_SUM, STUB_INTERN])
 
 
 def gen_symbols(n, tier):
@@ -300,15 +330,20 @@ def gen_burst(n, tier):
 
 def plan(tier, seed):
     hs = [gen_gate(8, "quick"), gen_gate(4, "thorough"), gen_gate(16, "thorough"), gen_short("quick"),
-          gen_loader_nopanic("offsets", "quick"), gen_loader_nopanic("consts", "quick"), gen_loader_nopanic("instrs", "quick"),
+          gen_loader_nopanic("features", ["feature_off"], "quick"), gen_loader_nopanic("types", ["types_off"], "quick"),
+          gen_loader_nopanic("consts", ["const_count", "const_tbl_off", "const_tbl_len"], "thorough"),
+          gen_loader_nopanic("blob", ["const_blob_off", "const_blob_len"], "thorough"),
+          gen_loader_nopanic("instrs", ["instr_off", "instr_len"], "thorough"),
           gen_decode_instr(9, "quick"), gen_decode_instr(13, "quick"), gen_decode_instr(18, "thorough"), gen_decode_instr(5, "thorough"), gen_decode_instr(26, "thorough"), gen_parse_const_entries("quick"),
           gen_roundtrip("quick"), gen_symbols(1, "quick"), gen_symbols(12, "quick"), gen_symbols(13, "thorough"),
           gen_burst(4, "quick"), gen_burst(8, "thorough")]
     qtags = {"U8", "I64", "F64", "R64", "Bool", "U128"}
     for tagname, size in SCALAR_TAGS:
         hs.append(gen_decode_const(tagname, size, "quick" if tagname in qtags else "thorough"))
-    hs.append(gen_vararg(18, "quick"))
-    hs.append(gen_vararg(40, "thorough"))
+    hs.append(gen_vararg_reader(17, "quick"))
+    hs.append(gen_vararg_writer(17, "quick"))
+    hs.append(gen_vararg_reader(33, "thorough"))
+    hs.append(gen_vararg_writer(33, "thorough"))
     for k in INSTR_KINDS:
         hs.append(gen_instr_kind(*k))
     for t in ["u8", "u16", "i64", "f64", "bool"]:
